@@ -313,14 +313,19 @@ pub fn race(nthreads: usize, run: u64, out: &mut Vec<Value>) {
     let barrier = Arc::new(Barrier::new(nthreads));
     let (rtx, rrx) = mpsc::channel::<(usize, usize, usize, String)>();
     let mut handles = vec![];
+    // ONE parameter object, created here and used by nobody yet: every thread's first call uses it (anything the library initialises
+    // lazily inside a parameter object is first touched by all threads at once); its other calls follow in a per-thread order
+    let shared = Arc::new(shared_params());
     for th in 1..=nthreads {
         let b = barrier.clone();
         let rtx = rtx.clone();
+        let sh = shared.clone();
         handles.push(std::thread::spawn(move || {
             b.wait();
-            // the shared object is built by whoever gets here; every thread first touches the lazily initialised tables
-            let sh = shared_params();
-            let order: Vec<usize> = (0..NCALLS).map(|i| (7 + i * (2 * th + 1) + th) % NCALLS).collect();
+            let stride = [1usize, 3, 7, 9, 11, 13, 17, 19][th % 8]; // coprime with the menu size: every call once per thread
+            let mut order: Vec<usize> = (0..NCALLS).map(|i| (7 + th + i * stride) % NCALLS).collect();
+            order.retain(|c| *c != 9);
+            order.insert(0, 9);
             for (seq, c) in order.into_iter().enumerate() {
                 let d = std::panic::catch_unwind(std::panic::AssertUnwindSafe(|| call(c, &sh))).unwrap_or_else(|_| "panic".to_string());
                 let _ = rtx.send((th, seq + 1, c, d));
